@@ -78,7 +78,7 @@ else:
     # the COMMITTED framework (git HEAD), not the working tree: work in progress must not leak into an evaluation;
     # the Lean build products are copied along so that nothing is rebuilt that has not changed
     sh("rm -rf %s/checklib %s/harness %s/tools %s/known && mkdir -p %s && git -C /verif archive HEAD | tar -x -C %s" % ((vdir,) * 6))
-    sh("rsync -a /verif/lean/.lake %s/lean/" % vdir)
+    sh("rsync -a /verif/lean/.lake %s/lean/ && mkdir -p %s/bin %s/evidence %s/work %s/replays" % ((vdir,) * 5))
     env_repo = "/tmp/seedeval_%s_chk" % sid
     subprocess.run(["git", "-C", "/repo", "worktree", "remove", "--force", env_repo], stdout=subprocess.DEVNULL, stderr=subprocess.DEVNULL)
     assert sh(["git", "-C", "/repo", "worktree", "add", "-q", "--detach", env_repo, "HEAD"])[0] == 0
